@@ -109,6 +109,31 @@ def _reported_states():
     return sts
 
 
+def _directive_states():
+    """the 32 flag settings reached the way a doctest reaches them: one directive comment that lists all five flags, behind directives
+    that leave nothing to apply (a requirement that is met, a report style) - every directive of the comment counts"""
+    _, directive, _ = _mods()
+    sts = []
+    for i in range(32):
+        st = directive.RuntimeState()
+        ds = [directive.Directive('REQUIRES', True, ['module:sys']), directive.Directive('REPORT_UDIFF', True)] if i % 2 else [directive.Directive('REQUIRES', True, ['module:os'])]
+        ds += [directive.Directive(n, bool((i >> k) & 1)) for k, n in enumerate(NAMES)]
+        if i % 3 == 0:
+            ds.append(directive.Directive('REQUIRES', False, ['module:sys']))
+        st.update(ds)
+        sts.append(st)
+    return sts
+
+
+def _pairs_worker_via_directives(pairs):
+    global _STATES
+    _STATES = _directive_states()
+    try:
+        return _pairs_worker(pairs)
+    finally:
+        _STATES = None
+
+
 def _pairs_worker_after_report(pairs):
     """the same comparison with RuntimeState objects that were handed to GotWantException's report functions before"""
     global _STATES
@@ -269,6 +294,10 @@ def run(ctx):
     analyse(ctx, sample, results_p, 'after an inline update of another RuntimeState')
     ctx.evaluations += len(sample) * 32
     ctx.count('pairs_after_inline_update_elsewhere', len(sample))
+    results_d = [r for ch in common.pmap(_pairs_worker_via_directives, chunks) for r in ch]
+    analyse(ctx, sample, results_d, 'with states whose flags were set by one directive comment listing all of them behind a met REQUIRES / a report style')
+    ctx.evaluations += len(sample) * 32
+    ctx.count('pairs_with_flags_set_by_a_directive_comment', len(sample))
     results_r = [r for ch in common.pmap(_pairs_worker_after_report, chunks) for r in ch]
     analyse(ctx, sample, results_r, 'with states that were handed to the failure report (output_difference) before')
     ctx.evaluations += len(sample) * 32
@@ -408,8 +437,10 @@ def replay(path):
         return c02.replay_gvw(d, path, 'C05')
     if 'got' in d and 'want' in d:
         keep = _pollute() if 'inline update' in str(d.get('where', '')) else None
-        if 'failure report' in str(d.get('where', '')):
+        if 'directive comment' in str(d.get('where', '')):
             global _STATES
+            _STATES = _directive_states()
+        if 'failure report' in str(d.get('where', '')):
             _STATES = _reported_states()
         b = impl_bits(d['got'], d['want'])
         a = common.model_batch([('check_output_allflags', d['got'], d['want'])], raw=True)[0]
